@@ -14,6 +14,5 @@ find "$SCR" -name __pycache__ -type d -exec rm -rf {} + 2>/dev/null
 ( cd "$SCR" && patch -p1 --no-backup-if-mismatch -s < "$PATCH" ) || { echo "patch did not apply" >&2; exit 3; }
 VERIF_REPO="$SCR" "$VERIF/check" "$@"
 rc=$?
-# restore the generated tables for the real tree
-( cd "$VERIF" && PYTHONDONTWRITEBYTECODE=1 /venv/bin/python -W ignore -m vcheck.translate >/dev/null )
+# (the runner itself restores the generated tables of the real tree after a table-changing run)
 exit $rc
